@@ -51,10 +51,17 @@ def _prepare():
         vlib.coq_eval_cases = small_shards
 
 
+def _lockrace(c, n, replay=None, name="lockrace"):
+    args = ["lockrace", "-replay", replay] if replay else ["lockrace", "-n", str(n)]
+    out = c.harness("proto", args, timeout=900)
+    if out:
+        c.monitor(name, out)
+
+
 def run(c):
     _prepare()
     c.proofs("theories/Properties/C13.v", clean=(c.tier == "thorough"))
-    c.translate(['TieProto'])  # T1: formulas / constants regenerated from the source, tie theorems re-checked
+    c.translate(['TieProto', 'TieRecvLock'])  # T1: formulas / constants regenerated from the source, tie theorems re-checked
     n = 300 if c.tier == "quick" else 3000
     nrd = 200 if c.tier == "quick" else 3000
     out = None
@@ -68,6 +75,17 @@ def run(c):
         c.cases("order", out, IMPORTS, "ocase", corr=CORR, spec=SPEC, premise=["premise_c13"])
     if not c.replay:
         _redial(c, nrd)
+    # one handler per receive queue under concurrent pushers (model: Proto/RecvLock.v): goroutine identities inside the
+    # frame loop, per-sender order and exactly-once at the receiving core; Lock() callers are released pairwise at the
+    # same instant so that a Lock() that is not one atomic swap is exercised
+    if c.replay and _replay_engine(c.replay).startswith("lockrace"):
+        _lockrace(c, 1, replay=c.replay)
+    elif not c.replay:
+        _lockrace(c, 80 if c.tier == "quick" else 2000)
+    if c.broken and not c.violations and not c.replay:
+        keep = list(c.broken)
+        _lockrace(c, 1200, name="lockrace-search")
+        c.broken = keep + [b for b in c.broken if b not in keep]
     if c.broken and not c.violations and not c.replay:
         out = c.harness("proto", ["c13", "-n", str(n * 6)], timeout=1500, env={"VERIF_SEED": str(c.seed + 7919)})
         if out:
@@ -85,7 +103,10 @@ def run(c):
         "wrote; net.Pipe, so a successful write = bytes read by serve()); a link drop is the peer closing the socket (EOF); "
         "the frames a sender writes while its link is down never reach the wire and are outside the statement",
         "TCP delivers the bytes of each link in order (section hypothesis of C13_fifo; the relay holds whole links back, never reorders inside one)",
-        "one worker per receive queue and in-order MPSC queues (lib.QueueMPSC Lock/Unlock, C02/C03) are modelled as FIFO lists consumed by one reader",
+        "one worker per receive queue: theorem C13_single_handler_per_queue over the small-step model of serve() / handleRecvQueue / "
+        "Lock / Unlock (Proto/RecvLock.v), tied by T1 (Lock and Unlock are each one atomic swap in lib/mpsc.go) and by the lockrace "
+        "family (goroutine identities inside the frame loop on a real connection pair); the queue itself is an atomic FIFO there "
+        "(its pointer-level refinement against a single popper is C03's Mbox/MpscProofs.v)",
         "one process sends sequentially; the local mailbox keeps per-sender order (C03)",
         "the pool of links is constant while the messages of a pair are in flight (guard of C13_fifo_partial; refuted without it)",
     ]
